@@ -199,12 +199,21 @@ func (r *bufRun) producers(maxProd int) {
 	if r.huge {
 		hugeAt = simrt.Draw(nProd)
 	}
+	midAt := -1
+	if !r.huge && simrt.Chance(1, 25) {
+		midAt = simrt.Draw(nProd)
+	}
 	for p := range plans {
 		plans[p].reuse = simrt.Chance(1, 4)
 		for k := simrt.DrawRange(1, 4*simrt.Scale()); k > 0; k-- {
 			n := simrt.DrawRange(0, 3)
 			if simrt.Chance(1, 10) {
 				n = simrt.DrawRange(4, 40) // an occasional large batch
+			}
+			if midAt == p && k == 1 {
+				// a few hundred values at once: big shifts when they are consumed within one cooldown
+				n = simrt.DrawRange(260, 600)
+				simrt.Probe("mid_batch")
 			}
 			if p == hugeAt && k == 1 {
 				// one very large batch: sizes around internal thresholds nobody thought of testing
